@@ -27,12 +27,35 @@
 namespace celma { namespace common {
 
 
+namespace detail {
+
+
+/// Holds the 'active' flag of a ManagedThread.<br>
+/// The flag is stored in a base class that is initialised before the
+/// std::thread base class: The thread is started by the constructor of
+/// std::thread, so the flag must already exist at this point. As a member of
+/// ManagedThread it would be initialised (i.e. reset) after the thread may
+/// already have set it.
+/// @since  x.y.z, 01.10.2026
+class ManagedThreadFlag
+{
+protected:
+   /// Flag, set by the thread before the thread function is executed, cleared
+   /// when the thread function returnes, i.e. finished its work.
+   std::atomic< bool>  mActive{ false};
+
+}; // ManagedThreadFlag
+
+
+} // namespace detail
+
+
 /// Small helper class that provides the information if the thread is still
 /// active or if it finished its work.<br>
 /// When this object is destroyed, it calls \c join(), so the calling
 /// application does not need to do that.
 /// @since  012, 19.01.2017
-class ManagedThread final: public std::thread
+class ManagedThread final: private detail::ManagedThreadFlag, public std::thread
 {
 public:
    /// Constructor, creates the thread which immediately starts its work.
@@ -67,11 +90,6 @@ public:
    // move-assignment is also not allowed
    ManagedThread& operator =( ManagedThread&&) = delete;
 
-private:
-   /// Flag, set by the thread before the thread function is executed, cleared
-   /// when the thread function returnes, i.e. finished its work.
-   std::atomic< bool>  mActive{ false};
-
 }; // ManagedThread
 
 
@@ -81,6 +99,7 @@ private:
 
 template< class Function, class... Args>
    ManagedThread::ManagedThread( Function&& f, Args&&... args):
+      detail::ManagedThreadFlag(),
       std::thread( [ func = std::forward< Function>( f), flag = &mActive]
                    ( Args&&... lbd_args)
                      noexcept( noexcept( f( std::forward< Args>( lbd_args)...)))
